@@ -201,8 +201,39 @@ fn build_arm_scan(name: &'static str) -> Input {
     Input { name, dump: Arc::new(procgen::build(&m)), syms: Arc::new(HashMap::new()), tag: "" }
 }
 
+/// 32-bit ARM, two threads, frames found by scanning, WITH symbols: every scanned frame also holds a stale word
+/// that points into a second module but into none of its functions - whether it is taken for a return address must not depend
+/// on whether the module's symbols have arrived yet
+fn build_arm_scan_symbols(name: &'static str) -> Input {
+    use vh::procgen::{self, CpuK, Model, ThreadM};
+    let mut m = Model::new(CpuK::Arm, 0x8201);
+    m.threads = vec![ThreadM { tid: 1, ctx_ok: true, ip: procgen::APP_BASE + 0x40, sp: procgen::STACK_BASE }];
+    // the stale words point into a second module that no real frame touches: its symbols are first asked for
+    // in the middle of a scan
+    let lib = procgen::ModM { base: 0x5800_0000, size: 0x10000, name: "c:\\dir\\lib.dll".into() };
+    m.modules = vec![procgen::app_module(), lib.clone()];
+    m.deep = Some(4);
+    m.deep_stale = Some(lib.base + 0x8001);
+    let mut syms = HashMap::new();
+    syms.insert(procgen::app_module().name, Some("MODULE Linux arm 000000000000000000000000000000000 app.exe\nFUNC 0 4000 0 code\n".to_string()));
+    syms.insert(lib.name, Some("MODULE Linux arm 000000000000000000000000000000000 lib.dll\nFUNC 0 4000 0 libcode\n".to_string()));
+    Input { name, dump: Arc::new(procgen::build(&m)), syms: Arc::new(syms), tag: "" }
+}
+/// a process creation time later than the dump's own time stamp (clock skew): nothing in the report may follow the
+/// clock of the machine that prints it
+fn build_clock_skew(name: &'static str) -> Input {
+    use vh::procgen::{self, CpuK, MiscM, Model, ThreadM};
+    let mut m = Model::new(CpuK::Amd64, 2);
+    m.threads = vec![ThreadM { tid: 1, ctx_ok: true, ip: procgen::APP_BASE + 0x40, sp: procgen::STACK_BASE + 8 }];
+    m.modules = vec![procgen::app_module()];
+    m.misc = Some(MiscM { pid: Some(7), create_time: Some(procgen::HEADER_TIME as u32 + 500) });
+    Input { name, dump: Arc::new(procgen::build(&m)), syms: Arc::new(HashMap::new()), tag: "" }
+}
+
 fn inputs() -> Vec<Input> {
     vec![
+        build_arm_scan_symbols("arm-scanned-frames-with-symbols-and-stale-words"),
+        build_clock_skew("process-created-after-the-dump-time-stamp"),
         build_arm_scan("arm-frames-found-by-scanning"),
         build_bitflips("amd64-bit-flips-from-two-registers"),
         build_two_builds("arm64-two-builds-of-one-file", true),
@@ -499,6 +530,18 @@ fn repeated_runs(inp: &Input, reps: usize, l: &mut Local) {
         }
     }
     let dump = Minidump::read(&inp.dump[..]).expect("dump");
+    // the same processing a good second later (only for the input about clocks: it costs a second)
+    if inp.name.contains("time-stamp") {
+        std::thread::sleep(std::time::Duration::from_millis(1100));
+        let p = Symbolizer::new(DelaySup { syms: inp.syms.clone(), delays: vec![0], calls: Mutex::new(0) });
+        let st = block_on(process_minidump(&dump, &p)).expect("process");
+        l.eval();
+        let got = render(&st);
+        if got != reference {
+            let (sig, what) = describe_difference(&reference, &got);
+            l.violation(format!("c13:nondeterministic-output:depends-on-the-clock:{sig}"), format!("the same dump processed 1.1 s later: {what}"), json!({"input": inp.name}));
+        }
+    }
     // one symbolizer reused for a second and third processing of the same dump (its symbol cache is warm then)
     {
         let p = Symbolizer::new(DelaySup { syms: inp.syms.clone(), delays: vec![0, 1], calls: Mutex::new(0) });
